@@ -273,6 +273,7 @@ def case_tags(case):
                 tags.add('retry')
         pubs = {}
         dictpub = set()
+        notpure = set()     # published at least once in a non-dict form
         for t in w['tasks']:
             kind = (t.get('body') or {}).get('kind')
             allpubs = [t.get('publish') or {}, t.get('publish_on_error') or {}]
@@ -283,6 +284,8 @@ def case_tags(case):
                     pubs[v] = pubs.get(v, 0) + 1
             for pd in allpubs:
                 for v, e in pd.items():
+                    if e[0] != 'dict':
+                        notpure.add(v)
                     if _has_dict(e) or (e[0] == 'res' and kind == 'wf') or \
                             (e[0] == 'list' and any(
                                 x[0] == 'res' and kind == 'wf'
@@ -347,8 +350,16 @@ def case_tags(case):
                 tags.add('multi_occurrence')
         if any(c > 1 for c in pubs.values()):
             tags.add('republish')
-        if any(c > 1 and v in dictpub for v, c in pubs.items()):
+        # F2 needs a variable whose leaf keys change between two publishes
+        # (scalar <-> dict, sub-workflow output); the generator's dict
+        # literal always has the same keys, so a variable that is only ever
+        # published as that literal keeps its leaf keys
+        if any(c > 1 and v in dictpub and v in notpure
+               for v, c in pubs.items()):
             tags.add('republish_dict')
+        if any(c > 1 and v in dictpub and v not in notpure
+               for v, c in pubs.items()):
+            tags.add('republish_dict_same')
     for op in case.get('ops') or []:
         tags.add('op_' + op['op'])
     for f in case.get('faults') or []:
